@@ -52,7 +52,7 @@ def run_world(kind, seed, quick, failure=False, hist_steps=0):
     name = kind
     try:
         if hist_steps:
-            hist = C.perturb(w, rng, abs(hist_steps), last='legacy_manifests' if hist_steps < 0 else None)
+            hist = C.perturb(w, rng, abs(hist_steps) % 100, last=('legacy_manifests' if hist_steps > -100 else 'overlay_subset') if hist_steps < 0 else None)
             name = kind + '+' + '/'.join(h['op'] for h in hist)
         R = C.Runner(w, cat)
         mut = set(cat.mutating)
@@ -247,6 +247,8 @@ def run(ctx):
         jobs.append((ctx.rng.choice(['deployed', 'pending', 'fresh', 'pending', 'nomanifest', 'bootstrapped']), False, ctx.rng.randrange(2, 6)))
     for i in range(3 if quick else 16):     # histories ending with the roots holding legacy-named manifests only (negative = forced last op)
         jobs.append((ctx.rng.choice(['deployed', 'pending']), False, -ctx.rng.randrange(1, 4)))
+    for i in range(3 if quick else 16):     # histories ending with an overlay whose edit upstream made too (<= -100: forced last op overlay_subset)
+        jobs.append((ctx.rng.choice(['deployed', 'pending']), False, -100 - ctx.rng.randrange(1, 3)))
     seeds = [ctx.rng.randrange(1 << 30) for _ in jobs]
     outs = []
     with concurrent.futures.ProcessPoolExecutor(max_workers=min(8, NCPU)) as ex:
